@@ -14,9 +14,10 @@ import pytz
 
 from core.common import f2b, b2f, close
 from core import impl as I
+from props import C15_tz as TZ
 
 ID = "C15"
-LEAN_MODULES = ["AcnProofs.C15", "AcnProofs.C15E2E"]
+LEAN_MODULES = ["AcnProofs.C15", "AcnProofs.C15E2E", "AcnProofs.C15Tz"]
 TIE_MODULES = ["AcnProofs.Lemmas.CodeTieFit"]
 DRIVER = "drv_C15"
 REQUIRED_THEOREMS = [
@@ -30,11 +31,20 @@ REQUIRED_THEOREMS = [
     "Acn.C15.fit_capacity_minimal", "Acn.C15.all_sessions_wellformed_default",
     "Acn.C15.arrival_lt_departure_iff", "Acn.C15.generate_events_vs_simulator_valid",
     "Acn.C15.generate_events_end_to_end", "Acn.C15.generate_events_end_to_end_total", "Acn.C15.fit_init_maximal",
+    "Acn.C15.index_depends_only_on_instant", "Acn.C15.reading_index_spec", "Acn.C15.sessions_depend_only_on_instants",
+    "Acn.C15.arrival_departure_spec_tz", "Acn.C15.index_shift_whole_periods", "Acn.C15.repeated_hour_index",
+    "Acn.C15.repeated_hour_readings_differ", "Acn.C15.fold_session_stay", "Acn.C15.order_preserving_instants",
+    "Acn.C15.batches_independent", "Acn.C15.memo_transparent", "Acn.C15.index_cache_by_instant_sound",
+    "Acn.C15.index_cache_by_wall_unsound", "Acn.C15.index_cache_without_period_unsound",
 ]
-BUDGET = {"quick": 1200, "thorough": 30000, "search": 12000}
+BUDGET = {"quick": 1320, "thorough": 33000, "search": 13200}
 TRUSTED = [
     "datetime.timestamp(), pytz zone data and strptime (the model starts from epoch seconds; the harness feeds "
     "zone-aware datetimes produced by the real acndata.utils.parse_dates from RFC-1123 strings)",
+    "tz stream: CPython's aware-datetime arithmetic (timestamp() = naive fields − utcoffset()) and the utcoffset() of "
+    "zoneinfo / dateutil / pytz / datetime.timezone / the hand-written PEP 495 tzinfo; the model takes (wall seconds, "
+    "utcoffset) per reading, the offsets come from a hand-written rule table (civil arithmetic + n-th-Sunday rules) "
+    "that run_impl cross-checks against every datetime object it builds",
     "scikit-learn's mixture sampler (samples are inputs; sample()/gmm.sample is mocked)",
     "numpy.exp vs Lean Float.exp (≤ 32 ulp), numpy.clip/minimum semantics, heapq (queue contents compared as a set)",
     "CPython recursion limit stands behind the model's bisection fuel (900)",
@@ -47,7 +57,13 @@ ASSUMPTIONS = [
     "the capacity fit promises exact delivery only for max_power = 32·V/1000 and the default two-stage battery; its "
     "bisection branch is exact up to its own tolerance 1e-9 (SoC units, i.e. 1e-9·capacity kWh)",
 ]
-RULE = ("three streams: (docs) 1-8 ACN-Data documents as RFC-1123 strings in 7 zones incl. DST days, parsed by the real "
+RULE = ("(tz) 2-6 get_evs calls in one process on documents whose datetimes carry zoneinfo (shared and private objects), "
+        "dateutil, pytz, datetime.timezone and a hand-written fold-aware tzinfo, mixed inside a batch: both readings of a "
+        "repeated wall-clock time (fold 0/1) in one document / in different documents / as the simulation start, readings in "
+        "the skipped hour, sessions crossing a transition, wall clocks running backwards; later calls reuse the same "
+        "datetimes under another period and the same (energy, stay) under another voltage / period / max power; the "
+        "expected indices come from the UTC instants in exact integer arithmetic; "
+        "three more streams: (docs) 1-8 ACN-Data documents as RFC-1123 strings in 7 zones incl. DST days, parsed by the real "
         "parse_dates and fed through a fake DataClient into acndata_events.generate_events, starts/periods/voltages/"
         "max_len/force_feasible/every battery_params shape, connection and disconnection times at period boundaries ±1 s; "
         "(samples) StochasticEvents/GaussianMixtureEvents.generate_events with mocked sample()/gmm incl. invalid rows, "
@@ -469,7 +485,7 @@ def corpus():
          "days": [[[9.0, 10.0, 40.0], [-1.0, 2.0, 3.0], [23.99, 0.01, 1.0]], [], [[0.0, 2.0, 50.0]]]},
         {"k": "samples", "period": 5, "V": 208, "maxp": 6.656, "max_len": None, "ff": False, "bp": {"type": "two", "capfn": "fit"},
          "clip": [0.0, 24.0, 0.0833, 48.0, 0.5, 150.0], "days": [[[8.5, 6.0, 1.5], [30.0, 0.01, 0.1]]]},
-    ]
+    ] + TZ.corpus()
 
 
 def _fit_grid():
@@ -495,9 +511,12 @@ def generate(rng, n, tier):
     out = []
     if tier == "thorough":
         out.extend(_fit_grid())
+        out.extend(TZ.grid(rng, _SELF()))
     for i in range(n):
-        r = i % 20
-        if r < 3:
+        r = i % 22
+        if r >= 20:
+            out.append(TZ.gen_case(rng, _SELF()))
+        elif r < 3:
             out.append(_gen_e2e_case(rng))
         elif r < 9:
             out.append(_gen_docs_case(rng))
@@ -685,8 +704,15 @@ def _run_fit(case):
     return out
 
 
+def _SELF():
+    import sys
+    return sys.modules[__name__]
+
+
 def run_impl(case):
     k = case["k"]
+    if k == "tz":
+        return TZ.run_impl(case, _SELF())
     if k == "e2e":
         return _run_e2e(case)
     if k == "docs":
@@ -710,6 +736,8 @@ def _bp_wire(bp):
 
 def model_request(case):
     k = case["k"]
+    if k == "tz":
+        return TZ.model_request(case, _SELF())
     if k == "e2e":
         return _e2e_model_request(case)
     if k == "fit":
@@ -741,6 +769,8 @@ def _close_fit(a, b, cap):
 
 
 def compare(case, obs, model):
+    if case["k"] == "tz":
+        return TZ.compare(case, obs, model, _SELF())
     out = []
     if case["k"] == "e2e" and model.get("err") == "OutOfFuel":
         # the composed model reports the bisection's exhausted fuel through the client's error enum
@@ -1094,6 +1124,8 @@ def _oracle_e2e(case, obs):
 
 
 def oracle(case, obs):
+    if case["k"] == "tz":
+        return TZ.oracle(case, obs, _SELF())
     if case["k"] == "e2e":
         return _oracle_e2e(case, obs)
     if case["k"] == "docs":
@@ -1114,6 +1146,8 @@ def _fit_branch(E, T, V, P, cap):
 
 def features(case, obs):
     k = case["k"]
+    if k == "tz":
+        return TZ.features(case, obs, _SELF())
     out = ["stream:" + k]
     if k == "e2e":
         out.append("e2e:pages:%d" % min(len(case["page_sizes"]), 4))
@@ -1182,7 +1216,7 @@ def features(case, obs):
 
 def nontrivial(case, obs):
     fs = features(case, obs)
-    keys = ("e2e:", "docs:stay:0", "docs:connect_on_boundary", "docs:capped", "docs:ff_reduced", "docs:fit:", "samples:skipped",
+    keys = ("tz:", "e2e:", "docs:stay:0", "docs:connect_on_boundary", "docs:capped", "docs:ff_reduced", "docs:fit:", "samples:skipped",
             "samples:stay:0", "fit:branch", ":err:", "docs:floor_of_difference_differs", "samples:bp:two+fit")
     return any(any(f.startswith(k) or k in f for k in keys) for f in fs)
 
